@@ -225,6 +225,8 @@ var (
 	h3   = fileEntry{"92eb5ffee6ae2fec3ad71c777531578f", 6132, "hello_2.10-1.debian.tar.xz", "devel", "optional"}
 	hBig = fileEntry{"0123456789abcdef0123456789abcdef", 6442450944, "hello_2.10.orig-data.tar.xz", "devel", "optional"} // 6 GiB
 	h4G  = fileEntry{"fedcba9876543210fedcba9876543210", 4294967296, "hello_2.10.orig-big.tar.xz", "devel", "optional"}  // exactly 2^32
+	hNF  = fileEntry{"0cc175b9c0f1b6a831c399e269772661", 725946, "hello_2.10.orig.tar.gz", "non-free/utils", "optional"} // area-qualified sections
+	hCT  = fileEntry{"92eb5ffee6ae2fec3ad71c777531578f", 6132, "hello_2.10-1.debian.tar.xz", "contrib/net", "extra"}
 	s1   = fileEntry{hash: "da39a3ee5e6b4b0d3255bfef95601890afd80709", size: 1131, name: "hello_2.10-1.dsc"}
 	s2   = fileEntry{hash: "86f7e437faa5a7fce15d1ddcb9eaeaea377667b8", size: 725946, name: "hello_2.10.orig.tar.gz"}
 	t1   = fileEntry{hash: "e3b0c44298fc1c149afbf4c8996fb92427ae41e4649b934ca495991b7852b855", size: 1131, name: "hello_2.10-1.dsc"}
@@ -287,7 +289,7 @@ func changesFields() []FSpec {
 			multi("", "hello (2.10-1) unstable; urgency=medium", ".", "  * Fix the build with the new toolchain (Closes:", "    #1012345).", "  #include <hello.h> no longer needed", "  .", "\t* tab-indented item", " .", "  * last")}},
 		{"Checksums-Sha1", "ChecksumsSha1", "sha1", []Variant{files("sha1", s1, s2), files("sha1", s1)}},
 		{"Checksums-Sha256", "ChecksumsSha256", "sha256", []Variant{files("sha256", t1, t2), files("sha256", t1)}},
-		{"Files", "Files", "chfiles", []Variant{files("changes", h1, h2, h3), files("changes", h1), files("changes", h1, hBig, h4G), files("changes", h2, h3)}},
+		{"Files", "Files", "chfiles", []Variant{files("changes", h1, h2, h3), files("changes", h1), files("changes", h1, hBig, h4G), files("changes", h2, h3), files("changes", hNF, hCT, h1)}},
 	}
 }
 
